@@ -4005,6 +4005,7 @@ func (p *Posix) HeadObject(ctx context.Context, input *s3.HeadObjectInput) (*s3.
 	// size and attributes of a file object are read through one open
 	// file, so that they belong to the same object (see getFileObject)
 	var f *os.File
+	verifhook.At("posix.headobject.statted")
 	if !fi.IsDir() {
 		f, err = os.Open(objPath)
 		if errors.Is(err, fs.ErrNotExist) || errors.Is(err, syscall.ENOTDIR) {
@@ -4017,6 +4018,7 @@ func (p *Posix) HeadObject(ctx context.Context, input *s3.HeadObjectInput) (*s3.
 			return nil, fmt.Errorf("open object: %w", err)
 		}
 		defer f.Close()
+		verifhook.At("posix.headobject.opened")
 		fi, err = f.Stat()
 		if err != nil {
 			return nil, fmt.Errorf("stat object: %w", err)
